@@ -471,7 +471,8 @@ def _writers(ctx, prog):
     data = sv[0].data["args"][1] if len(sv[0].data["args"]) > 1 else None
     lay = Layout(_traj_base(tm.param("traj")))
     try:
-        got = lay.cols(data)
+        from ..lib import exact_text
+        got = lay.cols(exact_text(data))
         ok = got == TUM and not lay.row_ops and not lay.scales
         why = str(got)
     except LayoutError as e:
@@ -561,11 +562,28 @@ def _csv(ctx, prog):
                f"comment filter is {[fmt(x) for x in sh[0][1]]}, delimiter "
                f"{fmt(sh[0][2])}", key="C07.4:comment-filter")
     seeks = [e for e in r.of_kind("call") if e.data.get("name") == ".seek"]
-    bom = tm.call(tm.func(FI + "has_utf8_bom"), (tm.param("file_path"),), ())
+    def bom(t):     # has_utf8_bom(<the path>), whatever path type it wraps
+        return is_call_to(t, FI + "has_utf8_bom") and t.args[1] and \
+            tm.mentions_param(t.args[1][0], "file_path")
     ok = len(seeks) == 1 and tm.is_const(seeks[0].data["args"][0], 3) and \
-        tm.fold(seeks[0].live, lambda t: False if t is bom else None) \
-        is False and tm.fold(seeks[0].live, lambda t: True if t is bom
+        tm.fold(seeks[0].live, lambda t: False if bom(t) else None) \
+        is False and tm.fold(seeks[0].live, lambda t: True if bom(t)
                              else None) is not False
+    if not seeks:
+        # the other way to skip it: the "utf-8-sig" codec (which strips a
+        # leading BOM and nothing else), always or when the file has one
+        opens = [e for e in r.of_kind("call")
+                 if e.data.get("name") in ("builtins.open", ".open",
+                                           "io.open", "codecs.open")]
+        encs = [dict(e.data["kwargs"]).get("encoding") for e in opens]
+        encs = [x for x in encs if x is not None]
+
+        def sig(x: T) -> bool:
+            if tm.is_const(x) and str(tm.const_val(x)).lower().replace(
+                    "_", "-") == "utf-8-sig":
+                return True
+            return x.op == "ite" and bom(x.args[0]) and sig(x.args[1])
+        ok = len(opens) == 1 and len(encs) == 1 and sig(encs[0])
     ctx.ob("C07.4", seeks[0] if seeks else f, ok,
            "exactly 3 bytes are skipped iff the file has a UTF-8 BOM" if ok
            else "BOM skipping deviates (not 3 bytes / not tied to "
